@@ -151,6 +151,8 @@ type Machine struct {
 	lenientFmt bool
 	timeT    types.Type
 	curFn    *ssa.Function
+	curSt    *State
+	hpkg     *ssa.Package
 	skipGo   []string
 	curIn    ssa.Instruction
 }
@@ -190,7 +192,7 @@ func (s *State) clone() *State {
 	n.cur = s.cur
 	n.gs = make([]*G, len(s.gs))
 	for i, g := range s.gs {
-		ng := &G{id: g.id, done: g.done}
+		ng := &G{id: g.id, done: g.done, daemon: g.daemon}
 		if i == s.cur {
 			ng.frames = n.frames
 		} else {
@@ -715,7 +717,7 @@ func (m *Machine) run(s *State, stopDepth int) []*State {
 		in := f.blk.Instrs[f.idx]
 		f.idx++
 		m.stats.instrs++
-		m.curFn, m.curIn = f.fn, in
+		m.curFn, m.curIn, m.curSt = f.fn, in, s
 		if m.tolerant {
 			m.execTolerant(s, f, in)
 			continue
